@@ -107,6 +107,7 @@ class NumberExpr(number_expr.NumberExpr, internal.RWValue[decimal.Decimal]):
 
     @value.setter
     def value(self, value: decimal.Decimal) -> None:
+        _check_not_consumed(self)
         self.raw_number_add_expr = _add_expr_from_value(value)
 
     def wrap_with_parenthesis(self) -> None:
